@@ -485,6 +485,22 @@ def r18d(ctx):
                 {x.id for s_ in walk_no_nested(bt.node) if isinstance(s_, ast.Assign) and isinstance(s_.targets[0], ast.Tuple)
                  for x in s_.targets[0].elts if isinstance(x, ast.Name)}
     helper_names = {g.node.name for g in region}
+    # locals computed element-wise from such a list (`expanders = [self.resolve_expander(type(g)) for g in grandchildren]`) stand
+    # for it in a leaf test; what they were computed with is part of that test
+    derived = {}
+    for g_ in region:
+        for s_ in walk_no_nested(g_.node):
+            if isinstance(s_, ast.Assign) and len(s_.targets) == 1 and isinstance(s_.targets[0], ast.Name):
+                v_ = s_.value
+                if isinstance(v_, ast.Call) and call_name(v_) in ("list", "tuple") and v_.args:
+                    v_ = v_.args[0]
+                if isinstance(v_, (ast.ListComp, ast.GeneratorExp)) and dotted(v_.generators[0].iter) in listnames:
+                    derived[s_.targets[0].id] = v_
+    listnames |= set(derived)
+    import re as _re
+
+    def _mentions(text, names):
+        return bool(set(_re.findall(r"[A-Za-z_]\w*", text)) & set(names))
     for g, node, it, cmps in scans:
         anchor = node
         if not isinstance(node, ast.For):
@@ -495,7 +511,7 @@ def r18d(ctx):
         if encl is not None and any(node is y for y in ast.walk(encl.test)) and isinstance(encl.test, ast.BoolOp):
             facts += [ast.unparse(v) for v in encl.test.values if not any(node is y for y in ast.walk(v))]
         allowed = leafnames | listnames | set(stack_names.get(g.qual, ())) | set(func_params(g.node)) | helper_names
-        extra = [x for x in facts if "check_for_cycles" not in x and not any(nm in x for nm in allowed) and x not in ("True",)]
+        extra = [x for x in facts if "check_for_cycles" not in x and not _mentions(x, allowed) and x not in ("True",)]
         # and the chain of calls that leads from build_tree to the helper holding the scan
         if g.qual != bt.qual:
             for c in walk_no_nested(bt.node):
@@ -504,7 +520,7 @@ def r18d(ctx):
                     cf = [ast.unparse(t) for t, pol in flatten_conditions(dominating_conditions(st))] if st is not None else []
                     if isinstance(st, ast.If) and isinstance(st.test, ast.BoolOp):
                         cf += [ast.unparse(v) for v in st.test.values if not any(c is y for y in ast.walk(v))]
-                    extra += [x for x in cf if "check_for_cycles" not in x and x != workv and not any(nm in x for nm in leafnames | listnames | helper_names)]
+                    extra += [x for x in cf if "check_for_cycles" not in x and x != workv and not _mentions(x, leafnames | listnames | helper_names)]
         if extra:
             ctx.violation("R18d", f, g.short, node, "guard reachable",
                           f"the ancestor scan only runs under {extra}: some cyclic shapes bypass it")
@@ -545,6 +561,11 @@ def r18d(ctx):
         return [] if reaches_expand(e) else [e]
     for g, c in shortcuts:
         elt = c.args[0].elt
+        src_ = derived.get(dotted(c.args[0].generators[0].iter))
+        if src_ is not None and reaches_expand(src_):
+            ctx.proved("R18d", f, g.short, c, "leaf shortcut uses expand()",
+                       f"the list tested was computed with self.expand() (`{norm(src_, 60)}`)")
+            continue
         by = bypasses(elt, call_name(c) == "all")
         if by:
             ctx.violation("R18d", f, g.short, by[0], "leaf shortcut uses expand()",
